@@ -74,11 +74,13 @@ def _oracle_tz(case) -> Info:
     spec = tuple(case[:10])
     exp = C.dt_expected(spec)
     twin = tuple(case[10]) if len(case) > 10 and case[10] is not None else None
+    threaded = (spec[6] + spec[5]) % 3 == 0  # every third case decodes on a fresh non-main thread
     for pos in POSITIONS:
         if twin is not None:
-            # a date-time with the same civil fields but another deviation/hundredths decoded just before must not matter
+            # a date-time with the same civil fields but another deviation/hundredths - or the same instant written with another
+            # deviation - decoded just before must not matter
             decode_at(pos, twin)
-        got = decode_at(pos, spec)
+        got = C.run_in_thread(lambda: decode_at(pos, spec)) if threaded else decode_at(pos, spec)
         m = C.same_dt(got, exp)
         if m:
             fail(f"{pos}: date-time octets {C.dt_octets(spec).hex()} decoded to {got!r}: {m}", sig=f"dt:{pos}")
@@ -103,6 +105,8 @@ def _case_st(draw):
     if draw(st.booleans()):
         other = draw(C.dt_spec_st())
         twin = spec[:7] + (other[7], other[8], other[9])  # same civil fields, different hundredths / deviation / status
+        if draw(st.booleans()):
+            twin = C.same_instant_twin(spec, draw(st.sampled_from([0, 60, -60, 120, -120, 720, -720]) | st.integers(-720, 720))) or twin
     return spec + (twin,)
 
 
@@ -120,6 +124,6 @@ def build() -> Check:
             "!= 0, or status 0xFF, or hundredths in 1..99. In half of the cases a 'twin' date-time with the same civil fields but different "
             "hundredths/deviation/status is decoded in the same position immediately before (no state may carry over). Distinct = case hash."
         ),
-        assumptions=["Year/month/day/hour/minute/second are specified (the property's domain); the surrounding message content is fixed and well-formed."],
+        assumptions=["Every third case decodes on a fresh non-main thread; twins include the same instant written with another deviation.", "Year/month/day/hour/minute/second are specified (the property's domain); the surrounding message content is fixed and well-formed."],
         clauses=[HypClause("datetimes", _case_st, oracle, quick=4000, thorough=100000)],
     )
